@@ -288,6 +288,28 @@ class GenBinding:
             "ws_quantile_range": lambda: mab.warm_start({a: [1.0, 0.0] for a in arms}, 1.5),
             "ws_arms_mismatch": lambda: mab.warm_start({first: [1.0, 0.0]}, 0.5),
         }
+        if kind.startswith("construct_"):
+            from mabwiser.mab import MAB
+            lp, np_ = self.policies()
+            good = list(arms)
+            bad = {
+                "construct_arms_not_list": lambda: MAB(tuple(good), lp, np_),
+                "construct_arms_duplicate": lambda: MAB(good + [good[0]], lp, np_),
+                "construct_arms_none": lambda: MAB(good + [None], lp, np_),
+                "construct_arms_nan": lambda: MAB(good + [np.nan], lp, np_),
+                "construct_arms_inf": lambda: MAB(good + [np.inf], lp, np_),
+                "construct_lp_type": lambda: MAB(good, "greedy", np_),
+                "construct_np_type": lambda: MAB(good, lp, "radius"),
+                "construct_seed_type": lambda: MAB(good, lp, np_, seed=1.5),
+                "construct_njobs_zero": lambda: MAB(good, lp, np_, n_jobs=0),
+                "construct_njobs_type": lambda: MAB(good, lp, np_, n_jobs=1.0),
+                "construct_backend_type": lambda: MAB(good, lp, np_, backend=3),
+            }
+            try:
+                value = bad[kind]()
+            except Exception as error:  # noqa
+                return type(error).__name__, error
+            return "ok", value
         if kind == "pfit_wrong_columns" and self.np == "tree":
             trees = getattr(mab._imp, "arm_to_tree", {})
             if not any(hasattr(t, "n_features_in_") for t in trees.values()):
@@ -302,6 +324,9 @@ class GenBinding:
         kinds = {"fit_len_mismatch", "pfit_len_mismatch", "fit_bad_type", "pfit_nan_reward", "pfit_inf_reward",
                  "predict_unfitted", "predict_exp_unfitted", "predict_bad_context_type", "add_duplicate", "add_none",
                  "add_nan", "add_inf", "remove_unknown", "ws_not_dict", "ws_quantile_range", "ws_arms_mismatch"}
+        kinds |= {"construct_arms_not_list", "construct_arms_duplicate", "construct_arms_none", "construct_arms_nan",
+                  "construct_arms_inf", "construct_lp_type", "construct_np_type", "construct_seed_type", "construct_njobs_zero",
+                  "construct_njobs_type", "construct_backend_type"}
         if self.lp != "ts":
             kinds.add("add_binarizer_non_ts")
         else:
